@@ -1748,3 +1748,76 @@ def values_equal(ex, x, y):
 def n_struct_eq(ex, callee, a, env):
     r = values_equal(ex, a[0], a[1])
     return Not(r) if callee.endswith('::ne') else r
+
+
+# ----------------------------------------------------------------------------- str searching
+def _pattern_bytes(p):
+    p = deref(p)
+    if isinstance(p, (Slice, HVec, list)):
+        return list(as_slice(p).items())
+    if isinstance(p, int):
+        if p >= 128:
+            return list(chr(p).encode('utf-8'))
+        return [p]
+    raise Unsupported(f'search pattern {p!r}')
+
+
+def _find(ex, hay, pat, reverse=False):
+    n, m = len(hay), len(pat)
+    rng = range(n - m, -1, -1) if reverse else range(0, n - m + 1)
+    for i in rng:
+        if ex.truth(_all_eq(hay[i:i + m], pat)):
+            return i
+    return None
+
+
+@native(r'^(core::)?str::<impl str>::(find|rfind)$|^str::(find|rfind)$', 'str::find')
+def n_str_find(ex, callee, a, env):
+    hay = list(as_slice(a[0]).items())
+    i = _find(ex, hay, _pattern_bytes(a[1]), reverse='rfind' in callee)
+    return NONE() if i is None else Some(i)
+
+
+@native(r'^(core::)?str::<impl str>::contains$|^str::contains$', 'str::contains')
+def n_str_contains(ex, callee, a, env):
+    hay = list(as_slice(a[0]).items())
+    return _find(ex, hay, _pattern_bytes(a[1])) is not None
+
+
+@native(r'^(core::)?str::<impl str>::(starts_with|ends_with)$|^str::(starts_with|ends_with)$', 'str::starts_with')
+def n_str_starts_with(ex, callee, a, env):
+    hay = list(as_slice(a[0]).items())
+    pat = _pattern_bytes(a[1])
+    if len(pat) > len(hay):
+        return False
+    if 'starts_with' in callee:
+        return _all_eq(hay[:len(pat)], pat)
+    return _all_eq(hay[len(hay) - len(pat):], pat)
+
+
+@native(r'^(core::)?str::<impl str>::split_at$|^str::split_at$', 'str::split_at')
+def n_str_split_at(ex, callee, a, env):
+    sl, i = as_slice(a[0]), a[1]
+    if not isinstance(i, int):
+        i = ex.concretize(i, 0, 64)
+    if i > sl.len:
+        raise Panic('str::split_at: mid > len')
+    return Tup([Slice(sl.buf, sl.start, i, True), Slice(sl.buf, sl.start + i, sl.len - i, True)])
+
+
+@native(r'^(core::)?str::<impl str>::(trim|trim_start|trim_end)$|^str::(trim|trim_start|trim_end)$', 'str::trim')
+def n_str_trim(ex, callee, a, env):
+    sl = as_slice(a[0])
+    items = list(sl.items())
+    lo, hi = 0, len(items)
+    T = ex.truth
+
+    def ws(b):
+        return Or(_eq(b, 32), in_range(b, 9, 13))
+    if not callee.endswith('trim_end'):
+        while lo < hi and T(ws(items[lo])):
+            lo += 1
+    if not callee.endswith('trim_start'):
+        while hi > lo and T(ws(items[hi - 1])):
+            hi -= 1
+    return Slice(sl.buf, sl.start + lo, hi - lo, True)
